@@ -24,14 +24,46 @@ def gen_tree(rng, depth=0):
         if depth < 2 and rng.random() < 0.4:
             d[str(k)] = gen_tree(rng, depth + 1)
         else:
-            d[str(k)] = "v" + str(int(rng.integers(0, 50)))
+            u = rng.random()
+            # leaves of every YAML scalar kind: mostly strings, but also null, numbers, booleans, lists (a list is a leaf for the merge)
+            if u < 0.6:
+                d[str(k)] = "v" + str(int(rng.integers(0, 50)))
+            elif u < 0.72:
+                d[str(k)] = None
+            elif u < 0.8:
+                d[str(k)] = int(rng.integers(-3, 4))
+            elif u < 0.86:
+                d[str(k)] = float(rng.integers(-8, 9)) / 4
+            elif u < 0.92:
+                d[str(k)] = bool(rng.integers(0, 2))
+            else:
+                d[str(k)] = [int(v) for v in rng.integers(0, 9, size=int(rng.integers(0, 3)))]
     return d
+
+
+def tok(v):
+    """a leaf value as the opaque token the model carries (the merge never looks inside a leaf)"""
+    if isinstance(v, str):
+        return v
+    if v is None:
+        return "~"
+    if isinstance(v, bool):
+        return "!T" if v else "!F"
+    if isinstance(v, (int, float)):
+        return "#" + repr(v)
+    if isinstance(v, (list, tuple)):
+        return "@" + "|".join(tok(x) for x in v)
+    raise TypeError(type(v))
+
+
+def tok_tree(t):
+    return {k: tok_tree(v) for k, v in t.items()} if isinstance(t, dict) else tok(t)
 
 
 def enc(t):
     if isinstance(t, dict):
         return "(" + ";".join(f"{k}={enc(v)}" for k, v in t.items()) + ")"
-    return "'" + str(t)
+    return "'" + tok(t)
 
 
 def dec(s):
@@ -92,7 +124,7 @@ def check_merge(ctx):
         got = plain(c)
         cj = {"op": "merge", "base": a, "top": b}
         ctx.case(("merge", enc(a), enc(b)), bool(set(a) & set(b)), sample=cj if set(a) & set(b) else None)
-        if ans is not None and (not ans.startswith("ok ") or dec(ans[3:]) != got):
+        if ans is not None and (not ans.startswith("ok ") or dec(ans[3:]) != tok_tree(got)):
             ctx.disagree(f"Config.merge gives {got}, model {ans}", cj)
         if got != ref_merge(a, b):
             ctx.violate("merge is not the recursive update (later wins, mappings merged, untouched keys survive)", cj, {"kind": "merge"})
@@ -192,7 +224,7 @@ def check_load_conf(ctx):
                 results[perm] = strip_extra(native.load_conf(ddir))
             ctx.count("listing")
         for order, got in results.items():
-            if model is not None and got != model:
+            if model is not None and tok_tree(got) != model:
                 ctx.disagree(f"load_conf with listing {order} differs from the model", {**cj, "listing": list(order) if order != "<fs order>" else order})
                 model_bad = True
             if got != want:
